@@ -134,7 +134,82 @@ def s_from_cstr(ex, st, fr, ins, name, argv):
 
 
 def s_from_ptr_len(ex, st, fr, ins, name, argv):
-    _set(st, argv[0], norm([nbytes(ex, st, argv[1], argv[2])]))
+    p, n = argv[1], argv[2]
+    if isinstance(n, tm.T) and not tm.is_ic(n) and isinstance(p, Ptr) and p.region is not None:
+        # std::string(ptr, n) with a symbolic length (e.g. the return value of snprintf): reads n bytes from the object;
+        # the path on which n exceeds the object ends in an out-of-bounds read, the other continues with opaque content
+        room = st.regions[p.region].size - p.off
+        over = tm.mk('icmp', 'i1', 'ugt', n, tm.ic(n.ty, room))
+        s2 = st.clone()
+        s2.assume(over)
+        s2.ub.append(('load out of bounds', 'std::string(ptr, n) reads n > %d bytes from %s (size %d)' % (room, st.regions[p.region].name, st.regions[p.region].size)))
+        s2.status = 'ub-out-of-bounds'
+        st.assume(tm.negate(over))
+        _set(st, argv[0], (('raw', st.regions[p.region].name, n),))
+        res, normal = ins.res, ins.a[3]
+        f2 = st.frames[-1]
+        if normal is not None:
+            ex.jump(st, f2, normal)
+        return [st, s2]
+    _set(st, argv[0], norm([nbytes(ex, st, p, n)]))
+
+
+_snp = [0]
+
+
+def snprintf_(ex, st, fr, ins, name, argv):
+    """snprintf(buf, size, fmt, ...) for the formats "%[.*|.N][L]{e,f}" with C semantics: at most size bytes are written
+    (modelled as: the whole buffer holds initialised, otherwise unknown bytes) and the return value is the length the
+    complete output would have: sign + digits before the point + point and precision (+ exponent field for e)."""
+    buf, size, fmtp = argv[0], argv[1], argv[2]
+    fmt = cstr(ex, st, fmtp).decode('latin-1')
+    m = re.match(r'^%(?:\.(\*|\d+))?(L?)([ef])$', fmt)
+    if not m or not tm.is_ic(size) or not isinstance(buf, Ptr) or buf.region is None:
+        raise Unsupported('snprintf format %r' % fmt)
+    rest = list(argv[3:])
+    if m.group(1) == '*':
+        prec = rest.pop(0)
+    else:
+        prec = tm.ic('i32', int(m.group(1)) if m.group(1) else 6)
+    x = rest.pop(0)
+    if not isinstance(x, tm.T) or not x.ty.startswith('f'):
+        raise Unsupported('snprintf argument %r' % (x,))
+    T = x.ty
+    i32 = lambda v: tm.ic('i32', v)
+    ax = tm.mk('call', T, 'fabs', x)
+    ge = lambda c: tm.mk('fcmp', 'i1', 'oge', ax, tm.fc(T, c))
+    lt = lambda c: tm.mk('fcmp', 'i1', 'olt', ax, tm.fc(T, c))
+    nz = tm.mk('fcmp', 'i1', 'one', x, tm.fc(T, 0))
+    sel = lambda c, a, b: tm.mk('select', 'i32', c, a, b)
+    from fractions import Fraction as F
+    sign = tm.mk('zext', 'i32', tm.mk('fcmp', 'i1', 'olt', x, tm.fc(T, 0)))
+    frac = sel(tm.mk('icmp', 'i1', 'sgt', prec, i32(0)), tm.mk('add', 'i32', prec, i32(1)), i32(0))
+    emax = tm.FEMAX[T] + 1
+    big = lambda k: F(10) ** k < F(2) ** emax           # 10^k representable in T?
+    if m.group(3) == 'e':
+        ed = i32(2)
+        c3 = ge(F(10) ** 100) if big(100) else None
+        s3 = tm.mk('and', 'i1', nz, lt(F(1, 10 ** 99)))
+        c3 = s3 if c3 is None else tm.mk('or', 'i1', c3, s3)
+        ed = sel(c3, i32(3), ed)
+        if T == 'f80':
+            c4 = tm.mk('or', 'i1', ge(F(10) ** 1000), tm.mk('and', 'i1', nz, lt(F(1, 10 ** 999))))
+            ed = sel(c4, i32(4), ed)
+        body = tm.mk('add', 'i32', i32(1 + 2), ed)
+    else:
+        _snp[0] += 1
+        many = tm.arg('i32', 'intdigits%d' % _snp[0])      # 6 or more digits before the point: not resolved further
+        body = many
+        for k in (5, 4, 3, 2, 1):
+            if big(k):
+                body = sel(lt(F(10) ** k), i32(k), body)
+    r = tm.mk('add', 'i32', tm.mk('add', 'i32', sign, frac), body)
+    reg = st.wreg(buf.region)
+    for o in range(buf.off, min(reg.size, buf.off + size.args[0])):
+        _snp[0] += 1
+        reg.cells[o] = (1, 'i8', tm.arg('i8', 'fmtbyte%d' % _snp[0]))
+    st.events.append(('snprintf', fmt, prec, x))
+    return r
 
 
 def s_from_sv_ref(ex, st, fr, ins, name, argv):
@@ -396,6 +471,7 @@ def install(summ, mod, summarise_print=True):
     summ.update(byname)
     summ['strlen'] = strlen_
     summ['phqv_emit'] = emit
+    summ['snprintf'] = snprintf_
     return summ
 
 
